@@ -10,7 +10,8 @@
    them for the regenerated tables.  The correspondence runs execute the same histories through
    these entry points against one model function. *)
 From Coq Require Import ZArith List.
-From BS Require Import Word BumpSpec BumpRefine ChunkSpec Arena ArenaInv ArenaExt.
+From BS Require Import Word BumpSpec BumpRefine ChunkSpec Arena ArenaInv ArenaExt AllocRefine.
+From BS.gen Require AllocSites.
 From BS.gen Require Bumping Twins.
 From BS Require Import TwinSpec.
 From Coq Require Import String.
@@ -72,6 +73,28 @@ Theorem C17_tables_are_populated :
   (200 <= List.length Twins.twins)%nat /\ (150 <= List.length Twins.forwards)%nat.
 Proof. vm_compute. split; repeat constructor. Qed.
 
+(* the typed twin of shrink - BumpScope's shrink_slice, "adapted from Allocator::shrink" - computes, for old_len / new_len
+   elements of size es and alignment ea, exactly the terms of the Allocator path (sizes len * es, alignment ea): the
+   typed fast path and the generic layout path agree and reclaim the same bytes (cut out of
+   traits/bump_allocator_typed.rs and translated on every run) *)
+Theorem C17_source_typed_shrink_is_the_models :
+  forall ptr old_len new_len es ea m pos,
+  valid_min_align m -> pow2 ea -> ea < W -> 0 <= ptr -> 0 <= es -> 0 <= new_len <= old_len ->
+  ptr + old_len * es + m - 1 < W -> old_len * es < W ->
+  let osize := old_len * es in let nsize := new_len * es in
+  let new_addr := down_alignZ (Z.max (ptr + osize - nsize) 0) (Z.max ea m) in
+  AllocSites.typed_shrink_old_size old_len es = Ok osize /\
+  AllocSites.typed_shrink_new_size new_len es = Ok nsize /\
+  AllocSites.typed_is_last_up ptr osize pos = Ok (ptr + osize =? pos) /\
+  AllocSites.typed_is_last_down ptr pos = Ok (ptr =? pos) /\
+  AllocSites.typed_shrink_up_end ptr nsize = Ok (ptr + nsize) /\
+  AllocSites.typed_shrink_up_new_pos (ptr + nsize) m = Ok (up_alignZ (ptr + nsize) m) /\
+  AllocSites.typed_shrink_down_old_end ptr osize = Ok (ptr + osize) /\
+  AllocSites.typed_shrink_down_new_addr (ptr + osize) nsize ea m = Ok new_addr /\
+  AllocSites.typed_shrink_down_new_end ptr nsize = Ok (ptr + nsize) /\
+  AllocSites.typed_shrink_down_overlaps (ptr + nsize) new_addr = Ok (new_addr <? ptr + nsize).
+Proof. exact typed_shrink_refines. Qed.
+
 Print Assumptions C17_hints_do_not_matter_up.
 Print Assumptions C17_hints_do_not_matter_down.
 Print Assumptions C17_dyn_commit_equals_typed.
@@ -81,3 +104,4 @@ Print Assumptions C17_forwarding_table_ok.
 Print Assumptions C17_twins_ok_meaning.
 Print Assumptions C17_forwards_ok_meaning.
 Print Assumptions C17_tables_are_populated.
+Print Assumptions C17_source_typed_shrink_is_the_models.
